@@ -252,6 +252,39 @@ def custom_vapour_cases():
                 pass
 
 
+def refused_convert_cases():
+    """an isotherm on which a combined convert(...) call was refused half-way (pressure step done, loading step impossible) and then
+    repeated with a possible target: the analyses give what they give on the original"""
+    import warnings
+    import pygaps.characterisation as c
+    iso = _load('MCM-41 N2 77.355.json')
+    entries_ = {'area_BET': lambda i: [c.area_BET(i)[k] for k in ('area', 'c_const')], 't_plot': lambda i: [x['area'] for x in c.t_plot(i)['results']],
+                'dr_plot': lambda i: [c.dr_plot(i, p_limits=(0, 0.1))[k] for k in ('pore_volume', 'adsorption_potential')]}
+    with warnings.catch_warnings():
+        warnings.simplefilter('ignore')
+        ref = {k: _flat(f(_copy(iso))) for k, f in entries_.items()}
+        for label, bad, good in (('kPa_then_mass_without_unit', dict(pressure_mode='absolute', pressure_unit='kPa', loading_basis='mass'),
+                                  dict(pressure_mode='absolute', pressure_unit='kPa', loading_basis='mass', loading_unit='g')),
+                                 ('Pa_then_unknown_loading_unit', dict(pressure_mode='absolute', pressure_unit='Pa', loading_unit='no_such_unit'),
+                                  dict(pressure_mode='absolute', pressure_unit='Pa', loading_unit='mol'))):
+            for stage in ('after_the_refusal', 'after_the_repeated_call'):
+                for k, f in entries_.items():
+                    try:
+                        i2 = _copy(iso)
+                        try:
+                            i2.convert(**bad)
+                        except Exception:
+                            pass
+                        if stage == 'after_the_repeated_call':
+                            i2.convert(**good)
+                        got = _flat(f(i2))
+                        ok = len(got) == len(ref[k]) and numpy.allclose(got, ref[k], rtol=1e-6)
+                        detail = '' if ok else f"original {ref[k][:3]}, {stage.replace('_', ' ')} {got[:3]}"
+                    except Exception as exc:
+                        ok, detail = False, f"{type(exc).__name__}: {exc}"[:140]
+                    yield {'name': f"refused_combined_convert|{label}|{stage}|{k}", 'ok': bool(ok), 'detail': detail}
+
+
 ISOSTERIC_ALL = ('l=mol', 'l=mass:mg', 'l=cm3(STP)', 'p=kPa,l=mass:g', 'l=volume_gas:cm3', 'l=volume_liquid:cm3', 'scale=0.001', 'scale=250.0', 'T=degC', 'json')
 
 
@@ -302,6 +335,7 @@ def run_chunk(chunk):
 def invariance_cases(seed, thorough=False):
     from pgv import par
     yield from custom_vapour_cases()
+    yield from refused_convert_cases()
     cases = all_cases(thorough)
     res, crashes = par.pmap(run_chunk, par.chunks(cases, 32))
     for r in res:
@@ -312,6 +346,10 @@ def invariance_cases(seed, thorough=False):
 
 @replayer('c15.case')
 def _case(spec, model):
+    if spec['name'].startswith('refused_combined_convert'):
+        for r in refused_convert_cases():
+            if r['name'] == spec['name']:
+                return {'confirmed': not r['ok'], 'observed': r['detail'], 'expected': 'the results of the original isotherm'}
     if spec['name'].startswith('adsorbate_without_backend'):
         for r in custom_vapour_cases():
             if r['name'] == spec['name']:
